@@ -147,7 +147,7 @@ fn emit() {
             o["skip_manifest"] = serde_json::from_str(c17pda::C17_SKIP_MANIFEST).expect("C17_SKIP_MANIFEST is JSON");
             // what the runtime hashes for every seeded instruction account (keys = c17_key_of(field path))
             o["runtime_seeds"] = json!(c17pda::c17_runtime_seeds().iter()
-                .map(|(ix, path, seeds)| json!({"instruction": ix, "path": path,
+                .map(|(ix, path, seeds, prog)| json!({"instruction": ix, "path": path, "program": prog.to_vec(),
                     "seeds": seeds.iter().map(|s| s.iter().map(|b| *b as u64).collect::<Vec<_>>()).collect::<Vec<_>>()}))
                 .collect::<Vec<_>>());
             // what the `fixed` crate says about the fixed-point fields of c17pda::Rates
